@@ -82,10 +82,33 @@ func execC10(seg []Ev) []Ev {
 		seedCase := toInt(in["caseseed"])
 		e["caseseed"] = seedCase
 		r := rand.New(rand.NewSource(int64(seedCase)))
+		// valbytes: the VALUES are given byte by byte (texts that are not well-formed UTF-8); the template itself is ASCII, so the
+		// rendering is compared byte by byte as well (the reference semantics works on sequences of numbers either way)
+		valbytes, _ := in["valbytes"].(bool)
+		if valbytes {
+			e["valbytes"] = true
+		}
+		bytesOf := func(s string) []int {
+			o := make([]int, len(s))
+			for i := 0; i < len(s); i++ {
+				o[i] = int(s[i])
+			}
+			return o
+		}
 		for _, p := range toList(in["vars"]) {
 			pp := p.([]any)
 			k, v := string(toRunes(pp[0])), string(toRunes(pp[1]))
-			vj = append(vj, []any{cps(k), cps(v)})
+			if valbytes {
+				bs := toList(pp[1])
+				b := make([]byte, len(bs))
+				for j, x := range bs {
+					b[j] = byte(toInt(x))
+				}
+				v = string(b)
+				vj = append(vj, []any{cps(k), bytesOf(v)})
+			} else {
+				vj = append(vj, []any{cps(k), cps(v)})
+			}
 			spelled := k
 			switch r.Intn(3) {
 			case 0:
@@ -175,6 +198,9 @@ func execC10(seg []Ev) []Ev {
 			default:
 				e["eval"] = "ok"
 				e["out"] = cps(res)
+				if valbytes {
+					e["out"] = bytesOf(res)
+				}
 			}
 			// C18: reported names and automatic variables
 			p := mparsers.NewMustacheParser()
@@ -427,6 +453,14 @@ func genC10(g *Gen) {
 		mg.print(ns, &lx)
 		lx = fixTexts(lx)
 		g.Run("random well-formed templates", []Ev{{"op": "tmpl", "lex": lexAny(lx), "vars": mg.vars(), "wellformed": true, "caseseed": int(r.Int31())}})
+	}
+	// (1b) values that are not well-formed UTF-8 (Latin-1 text, truncated sequences, a byte-order mark, binary data) pass through a
+	// variable unchanged and through an escaped variable with only the eight escapes applied - byte for byte
+	for _, val := range [][]int{{0x63, 0x61, 0x66, 0xe9}, {0xff}, {0xc3}, {0xe2, 0x82}, {0xff, 0xfe, 0x41, 0x00}, {0x22, 0xff, 0x5c, 0x0a, 0xc3, 0x28}, {0xf0, 0x9f, 0x98}, {0x61, 0x80, 0x62},
+		{0x2f, 0xe9, 0x09, 0xe9}, {0xc3, 0xa9}, {0x08, 0x0c, 0xfe}} {
+		lx := []mlex{{"text", "v="}, {"{{{", "{{{"}, {"word", "v"}, {"}}}", "}}}"}, {"text", ";"}, {"{{", "{{"}, {"word", "v"}, {"}}", "}}"},
+			{"{{", "{{"}, {"#", "#"}, {"word", "v"}, {"}}", "}}"}, {"text", "y"}, {"{{{", "{{{"}, {"word", "V"}, {"}}}", "}}}"}, {"{{", "{{"}, {"/", "/"}, {"word", "v"}, {"}}", "}}"}}
+		g.Run("values that are not well-formed UTF-8", []Ev{{"op": "tmpl", "lex": lexAny(lx), "vars": []any{[]any{cps("v"), val}}, "wellformed": true, "caseseed": 1, "valbytes": true}})
 	}
 	// (2) every small template: up to 3 top-level nodes, sections with up to 2 children, over names {a,B}, x variable maps
 	small := []*mnode{{kind: "text", text: "x"}, {kind: "text", text: " "}, {kind: "var", text: "a"}, {kind: "esc", text: "B"}, {kind: "comment", text: "c"}}
